@@ -30,13 +30,19 @@ FlagsOK ==
        /\ Chk("parameter_flag_moves_to_new_variable", Ev.flags[n].parameter = vars'[n].param)
        /\ Chk("observed_flag_unchanged", Ev.flags[n].observed = vars'[n].obs)
 
+\* the variable the event transforms ("x" unless the event says otherwise: chained transformations); an event of a
+\* chain that is followed by a further transformation before a model exists carries the structural facts only
+TVar == IF "var" \in DOMAIN Ev THEN Ev.var ELSE "x"
+Structural == "structural_only" \in DOMAIN Ev /\ Ev.structural_only
 TTransform ==
   /\ IsEvent("transform")
-  /\ Transform("x", Ev.bij)
+  /\ Transform(TVar, Ev.bij)
   /\ Chk("transform_accepted_or_rejected_as_specified", Ev.reason = rej')
   /\ FlagsOK
-  /\ (IF ~Ev.ok THEN TRUE ELSE
-       /\ Chk("new_variable_named_after_original", Ev.new_name = TName("x"))
+  /\ (IF ~Ev.ok THEN TRUE
+      ELSE IF Structural THEN Chk("new_variable_named_after_original", Ev.new_name = TName(TVar))
+      ELSE
+       /\ Chk("new_variable_named_after_original", Ev.new_name = TName(TVar))
        /\ Chk("original_value_unchanged_by_transformation", CloseSeq(Ev.orig_value, Ev.leaves.x))
        /\ Chk("new_value_is_inverse_image", CloseSeq(Ev.new_value, Ev.leaves.t))
        \* the model's totals see the transformed variable (it is the only distributed one; log-prior iff parameter)
@@ -54,7 +60,8 @@ TTransform ==
 \* the distribution's parameters (or the bijector's arguments) depend on
 TAssign ==
   /\ IsEvent("assign")
-  /\ (IF Ev.target = "x_transformed" THEN Assign("x_transformed", Atom(ToString(l))) ELSE UNCHANGED vars /\ rej' = "none")
+  /\ (IF Ev.target \in {"x_transformed", "x_transformed_transformed"} THEN Assign(Ev.target, Atom(ToString(l)))
+      ELSE UNCHANGED vars /\ rej' = "none")
   /\ FlagsOK
   /\ Chk("original_is_bijector_image_of_new_variable", CloseSeq(Ev.orig_value, Ev.leaves.b_t))
   /\ Chk("new_log_density_is_original_at_b_t_plus_log_det_jacobian",
